@@ -326,6 +326,11 @@ fn ty_shape(ty: &syn::Type, sig: &syn::Signature) -> Value {
                 wrap.push("paren");
                 cur = p.elem.as_ref();
             }
+            // the invisible group around a `$t:ty` macro fragment reads like parentheses
+            syn::Type::Group(g) => {
+                wrap.push("paren");
+                cur = g.elem.as_ref();
+            }
             _ => break,
         }
     }
